@@ -16,6 +16,7 @@ RULE = ('Generated valid chains (3..24 blocks, constructive tx generator: inputs
         'open_for_serving, all_utxos / lookup_utxos / utxo_count / tx_count / chain_size / tip and '
         'the raw h and u rows equal an independent replay model (both directions). Non-trivial = '
         'a spend of an already-flushed output and an intermediate flush; classes counted: '
+        'a large stratum with blocks of up to 300 extra transactions; '
         'collision-resolved DB spend, same-block spend chain, OP_RETURN on both sides of '
         'activation, spend after history-only flush, zero value, duplicate scripts in a tx.')
 ASSUMPTIONS = ['LevelDB batch atomicity', 'FakeDaemon models bitcoind (answers computed at response '
@@ -43,6 +44,9 @@ def body(ctx, parts, check):
 def run(ctx):
     hyp_run(ctx, 'c01.sync', scenario.sync_case(), body(ctx, PARTS, 'c01.sync'),
             ctx.pick(120, 3000))
+    # large stratum: blocks of up to 300 extra transactions, thousands of UTXOs
+    hyp_run(ctx, 'c01.sync', scenario.sync_case(max_blocks=12, large=True),
+            body(ctx, PARTS, 'c01.sync'), ctx.pick(6, 150))
 
 
 def replay(ctx, check, case):
